@@ -111,7 +111,12 @@ def settings_menu(entry, thorough):
             for ns in nss:
                 for v in vers:
                     for sh in shapes:
-                        yield {"n": n, "bust": bust, "ns": ns, "ver": v, "shape": sh}
+                        yield {"n": n, "bust": bust, "ns": ns, "ver": v, "shape": sh, "ids": [1, 1]}
+    # turn ids are the caller's: start at a cadence turn and skip (2, 5, 8 ...): a cadence rule that keeps memory of the
+    # last snapshot instead of using turn % n shows up here
+    for n in (2, 3):
+        for sh in shapes:
+            yield {"n": n, "bust": "on-apply", "ns": "default", "ver": "41", "shape": sh, "ids": [n, n + 1]}
 
 
 def _cfg_for(st, snap_dir, enabled=True):
@@ -187,7 +192,8 @@ def run_history(case, scratch):
         state["_boot_loaded"] = True  # the boot loader is C06/C20's subject; keep the initial version as scripted
         agent = "A"
         snap_file = os.path.join(ex.snap_dir, "state_%s.json" % agent)
-        for turn, (kind, ids, plan) in enumerate(hist, start=1):
+        id0, stride = st.get("ids", [1, 1])
+        for turn, (kind, ids, plan) in ((id0 + i * stride, h) for i, h in enumerate(hist)):
             plan = tuple(plan) if plan[0] in ("ok", "okquiet") else ("batchfail", list(plan[1]))
             approved = [D(i) for i in ids]
             store.begin(turn, plan)
@@ -275,7 +281,7 @@ def run_history(case, scratch):
             seen.add((t, k))
         # store content = sum of successfully applied deltas
         expw = {}
-        for turn, (kind, ids, plan) in enumerate(hist, start=1):
+        for turn, (kind, ids, plan) in ((id0 + i * stride, h) for i, h in enumerate(hist)):
             if kind != "commit":
                 continue
             for i in ids:
